@@ -23,3 +23,23 @@ fn s2_okey_str_2_1() { check(small_string::<2>(), small_string::<1>()); }
 #[kani::proof]
 #[kani::unwind(8)]
 fn s2_okey_str_2_2() { check(small_string::<2>(), small_string::<2>()); }
+
+fn check_bytes<const A: usize, const B: usize>() {
+    let a: [u8; A] = kani::any(); let b: [u8; B] = kani::any();
+    let mut i = 0; while i < A { kani::assume(a[i] < 0x80); i += 1; }
+    let mut i = 0; while i < B { kani::assume(b[i] < 0x80); i += 1; }
+    let sa = unsafe { String::from_utf8_unchecked(a.to_vec()) };
+    let sb = unsafe { String::from_utf8_unchecked(b.to_vec()) };
+    let ea = encode_ordered_value(&PropertyValue::String(sa));
+    let eb = encode_ordered_value(&PropertyValue::String(sb));
+    let lt = a[..] < b[..]; let eq = a[..] == b[..];
+    let ok = (lt == (ea < eb)) && (eq == (ea == eb)) && (eq || !ea.starts_with(&eb));
+    std::mem::forget((ea, eb));
+    assert!(ok);
+}
+#[kani::proof]
+#[kani::unwind(8)]
+fn s2b_okey_str_1_1() { check_bytes::<1, 1>(); }
+#[kani::proof]
+#[kani::unwind(8)]
+fn s2b_okey_str_2_1() { check_bytes::<2, 1>(); }
